@@ -21,6 +21,7 @@ ASSUMPTIONS = ["core id features are toggled only at the end of a walk (user act
 REQUIRED_CLASSES = {t: ["enable_after_edits", "unknown_key:enable", "unknown_key:disable",
                         "protected_attr:enabled", "protected_attr:disabled", "edit_with_disabled_feature",
                         "core_toggle", "cfg:route=featuredict", "cfg:noseg",
-                        "recompute_after_enable_without_recompute"] for t in ("quick", "thorough")}
+                        "recompute_after_enable_without_recompute", "core_disabled_mid_session:tracklet",
+                        "core_reenabled_mid_session"] for t in ("quick", "thorough")}
 run_shard, replay, minimise = make(C10Oracle, quick=(3200, 40), thorough=(6400, 60), profile="features",
                                    cfg_kwargs={"allow_optional": True}, refusal_bias=0.15)
